@@ -1,7 +1,7 @@
 // Test PKI for the C07 driver, generated with the libcrypto API (no openssl CLI in the sandbox) and cached on disk.
 //
 //   ca.pem / ca.key            the RIGHT certificate authority (self-signed, CA:TRUE)
-//   ca2.pem / ca2.key          a second, unrelated authority (the WRONG trust anchor; also signs cli_untrusted)
+//   ca2.pem / ca2.key          a second, unrelated authority (the WRONG trust anchor)
 //   srv_valid.{pem,key}        CN=localhost, SAN DNS:localhost + IP:127.0.0.1 + IP:::1, signed by ca
 //   srv_selfsigned.{pem,key}   same names, self-signed leaf (chains to nothing)
 //   srv_expired.{pem,key}      same names, signed by ca, notAfter one day in the past
@@ -11,7 +11,7 @@
 //                              compares public parts, lets a peer present srv_valid.pem without possessing its key)
 //   other.key                  an unrelated private key (the engine's own "key file does not match the cert" case)
 //   cli_valid.{pem,key}        CN=client, signed by ca
-//   cli_untrusted.{pem,key}    CN=client, signed by ca2
+//   cli_untrusted.{pem,key}    CN=client, signed by a third authority that is thrown away (never anybody's anchor)
 //   cli_expired.{pem,key}      CN=client, signed by ca, expired
 //   empty.pem                  an empty trust store;  emptydir/  an empty hashed directory
 // All keys are EC P-256; signatures ecdsa-with-SHA256.
@@ -36,7 +36,7 @@ namespace vf
 namespace certs
 {
 
-static const char *const kStamp = "c07-certs-v3";
+static const char *const kStamp = "c07-certs-v4";
 
 inline EVP_PKEY *newKey()
 {
@@ -174,7 +174,9 @@ inline void ensure(const std::string &dir)
   writeCert(dir + "/cli_valid.pem", cv);
   writeKey(dir + "/cli_valid.key", cvK);
   EVP_PKEY *cuK = newKey();
-  X509 *cu = makeCert(cuK, "client", nullptr, false, ca2, ca2K, -1, 3650, 21);
+  EVP_PKEY *ca3K = newKey();
+  X509 *ca3 = makeCert(ca3K, "verif C07 discarded CA", nullptr, true, nullptr, nullptr, -1, 3650, 3);
+  X509 *cu = makeCert(cuK, "client", nullptr, false, ca3, ca3K, -1, 3650, 21);
   writeCert(dir + "/cli_untrusted.pem", cu);
   writeKey(dir + "/cli_untrusted.key", cuK);
   EVP_PKEY *ceK = newKey();
@@ -190,8 +192,8 @@ inline void ensure(const std::string &dir)
     fputs(kStamp, s);
     fclose(s);
   }
-  for (X509 *x : {ca, ca2, valid, ss, exp, wn, cv, cu, ce}) X509_free(x);
-  for (EVP_PKEY *k : {caK, ca2K, validK, ssK, expK, wnK, otherK, fk, cvK, cuK, ceK}) EVP_PKEY_free(k);
+  for (X509 *x : {ca, ca2, ca3, valid, ss, exp, wn, cv, cu, ce}) X509_free(x);
+  for (EVP_PKEY *k : {caK, ca2K, ca3K, validK, ssK, expK, wnK, otherK, fk, cvK, cuK, ceK}) EVP_PKEY_free(k);
 }
 
 } // namespace certs
